@@ -45,7 +45,7 @@ Section Dent.
 
   (* the metadata phase on an inode that is a fresh copy of [sd] as far as creation goes *)
   Lemma dm_finfo_fresh s T d :
-    wf_dent (sdent s) -> multi (sino s) = false ->
+    wf_dent (sdent s) ->
     ftype d = copy_type (sdent s) ->
     (is_lnk (sdent s) = true -> d_mode d = N.lor S_IFLNK 511) ->
     d_rdev d = (if is_dev (sdent s) then d_rdev (sdent s) else 0) ->
@@ -53,7 +53,7 @@ Section Dent.
     d_content d = (if is_reg (sdent s) then d_content (sdent s) else []) ->
     dm o (finfo o ms (sdent s) d) (new_entry o ms multi s T).
   Proof.
-    intros (Hz & Hl & Ht & Hx) Hm Hty Hlm Hr Htg Hxa Hc. set (sd := sdent s) in *.
+    intros (Hz & Hl & Ht & Hx) Hty Hlm Hr Htg Hxa Hc. set (sd := sdent s) in *.
     unfold dm, new_entry, finfo. fold sd. cbn [x_d x_known x_mk eff_known d_mode d_uid d_gid d_mtime d_rdev d_target d_xattrs d_content].
     destruct (is_lnk sd) eqn:El.
     - cbn [set_xattrs set_mtime set_owner d_mode d_uid d_gid d_mtime d_rdev d_target d_xattrs d_content].
